@@ -557,7 +557,9 @@ class Manager:
                 state.event = event
 
         def _on_done(self, event, *args, **kwargs):
-            if state.event == event.parent:
+            # (the done notification of the event this wait has seen: not an
+            # application event that happens to be called <name>_done)
+            if state.event is not None and event.parent is state.event:
                 state.flag = True
                 self.registerTask((state.task_event, state.task, state.parent))
                 if state.timeout >= 0:
